@@ -396,7 +396,8 @@ def _analyze_redirects(
             continue
 
         # Skip safe redirects
-        if target in SAFE_REDIRECT_TARGETS or target.startswith("&"):
+        # ("-" only means stdout for tools that say so; after a shell operator it is a file name)
+        if (target in SAFE_REDIRECT_TARGETS and target != "-") or target.startswith("&"):
             continue
 
         # Check output redirects against config
